@@ -228,6 +228,12 @@ pub struct ReindexBatch {
 impl HashColumn {
 	pub fn get(&self, key: &Key, log: &impl LogQuery) -> Result<Option<(Value, u32)>> {
 		let tables = self.tables.read();
+		// Hold the reindex lock across ALL index lookups. `drop_index` only needs
+		// `reindex.write()`: if the lock were taken after the lookup in the current index, the
+		// final reindex batch could move the key there and retire the old index in between,
+		// and a key that was never absent would be found in neither table.
+		// Lock order `tables` then `reindex`, as everywhere else.
+		let reindex = self.reindex.read();
 		let values = self.as_ref(&tables.value);
 		if let Some((tier, rc, value)) = self.get_in_index(key, &tables.index, values, log)? {
 			if self.collect_stats {
@@ -235,7 +241,7 @@ impl HashColumn {
 			}
 			return Ok(Some((value, rc)))
 		}
-		for entry in &self.reindex.read().queue {
+		for entry in &reindex.queue {
 			if let ReindexEntry::Index(r) = entry {
 				if let Some((tier, rc, value)) = self.get_in_index(key, r, values, log)? {
 					if self.collect_stats {
